@@ -11,7 +11,10 @@
          (ONE step: `str(function)` -- the text of a network does not depend on how many addresses it holds),
          bytes, a list, an object.  A dict entry costs 1 more (the `for k, v in function.items()` iteration).
      R2  Ref / Fn::ImportValue: `resolve(params[resolved_ref], ...)` walks the parameter value: [vsize] of it.
-     R3  Fn::FindInMap: `deepcopy(resolved_mapping)` walks the leaf: [vsize] of it.
+     R3  Fn::FindInMap: `deepcopy(resolved_mapping)` walks the leaf: [vsize] of it.  The case-blind fallback of
+         `_mapping_get` (a key "true" / "false" that is not in the mapping level as written: `for candidate, value in
+         mapping.items(): candidate.lower() == key`) is a SCAN, not a dict lookup: 1 + the candidate's characters for
+         every entry visited, until the first spelling found ([lookup_bk_cost]).
      R4  Fn::Sub: `SUB_PLACEHOLDER.sub(replace, text)` scans the text: [length text]; each `${name}` bound to a
          parameter costs [vsize] of the parameter value (`resolve(replacements[name], ...)`).
      R5  (charges that depend on an INTERMEDIATE result, multiplied by the weight [w], see below)
@@ -88,7 +91,31 @@ Definition do_ref_cost (e : env) (b : value) : nat :=
   | _ => 0
   end.
 (* ---- R3: resolve_find_in_map ---- *)
+(* `for candidate, value in mapping.items(): if isinstance(candidate, str) and candidate.lower() == key: return value` *)
+Fixpoint ci_scan_cost {A} (k : str) (d : list (str * A)) : nat :=
+  match d with
+  | [] => 0
+  | (k', _) :: d' => S (length k') + (if str_eqb (lower k') k then 0 else ci_scan_cost k d')
+  end.
+(* `if key in mapping: return mapping[key]` is a dict lookup (not charged); the scan runs only for "true" / "false" not found *)
+Definition lookup_bk_cost {A} (k : str) (d : list (str * A)) : nat :=
+  match lookup k d with
+  | Some _ => 0
+  | None => if is_bool_text k then ci_scan_cost k d else 0
+  end.
+Definition find_in_map_scan_cost (e : env) (m k1 k2 : value) : nat :=
+  match m, k1, k2 with
+  | VStr ms, VStr s1, VStr s2 =>
+      match lookup ms (mappings e) with
+      | Some (VDict top) =>
+          lookup_bk_cost s1 top +
+          match lookup_bk s1 top with Some (VDict snd_) => lookup_bk_cost s2 snd_ | _ => 0 end
+      | _ => 0
+      end
+  | _, _, _ => 0
+  end.
 Definition do_find_in_map_cost (e : env) (m k1 k2 : value) : nat :=
+  find_in_map_scan_cost e m k1 k2 +
   match do_find_in_map e m k1 k2 with
   | Ok leaf => vsize leaf          (* return deepcopy(resolved_mapping)   (1 for the UNDEFINED_MAPPING text) *)
   | Err _ => 0
@@ -538,15 +565,37 @@ Proof.
   unfold do_ref_cost, psize. destruct b; try lia. destruct (lookup s (params e)) as [x|] eqn:E; [|lia].
   pose proof (lookup_dtsize _ _ _ E). pose proof (vsize_le_tsize x). lia.
 Qed.
+(* the scan of a level costs at most its keys; whatever it finds sits in the level next to them *)
+Definition kcost (d : list (str * value)) : nat := fold_right (fun kv acc => S (length (fst kv)) + acc) 0 d.
+Lemma ci_scan_cost_le k d : ci_scan_cost k d <= kcost d.
+Proof.
+  induction d as [|[k' y] d IH]; simpl; [lia|]. fold (kcost d).
+  destruct (str_eqb (lower k') k); lia.
+Qed.
+Lemma lookup_bk_cost_le k d : lookup_bk_cost k d <= kcost d.
+Proof.
+  unfold lookup_bk_cost. destruct (lookup k d); [lia|]. destruct (is_bool_text k); [apply ci_scan_cost_le | lia].
+Qed.
+Lemma kcost_le_dksize d : kcost d <= dksize d.
+Proof. induction d as [|[k' y] d IH]; simpl; [lia|]. fold (kcost d). fold (dksize d). lia. Qed.
+Lemma in_kcost_dksize k x d : In (k, x) d -> kcost d + tsize x <= dksize d.
+Proof.
+  induction d as [|[k' y] d IH]; simpl; [tauto|]. fold (kcost d). fold (dksize d).
+  intros [H|H]; [inv H; pose proof (kcost_le_dksize d); lia | specialize (IH H); lia].
+Qed.
+Lemma lookup_bk_kcost_dksize k d x : lookup_bk k d = Some x -> kcost d + tsize x <= dksize d.
+Proof. intros H. destruct (lookup_bk_In k d x H) as (k' & Hin & _). apply (in_kcost_dksize k' x d Hin). Qed.
 Lemma do_find_in_map_cost_le e m k1 k2 : do_find_in_map_cost e m k1 k2 <= 1 + psize e.
 Proof.
-  unfold do_find_in_map_cost, do_find_in_map, psize. destruct m, k1, k2; try lia.
+  unfold do_find_in_map_cost, find_in_map_scan_cost, do_find_in_map, psize. destruct m, k1, k2; try lia.
   destruct (lookup s (mappings e)) as [top|] eqn:E1; [|simpl; lia].
   pose proof (lookup_dtsize _ _ _ E1) as H1. destruct top as [| | | | | | | top]; try lia.
-  destruct (lookup s0 top) as [sec|] eqn:E2; [|simpl; lia].
-  pose proof (lookup_dksize _ _ _ E2) as H2. rewrite tsize_dict in H1. destruct sec as [| | | | | | | sec]; try lia.
-  destruct (lookup s1 sec) as [leaf|] eqn:E3; [|simpl; lia].
-  pose proof (lookup_dksize _ _ _ E3) as H3. rewrite tsize_dict in H2. pose proof (vsize_le_tsize leaf).
+  rewrite tsize_dict in H1. pose proof (lookup_bk_cost_le s0 top) as C1. pose proof (kcost_le_dksize top) as K1.
+  destruct (lookup_bk s0 top) as [sec|] eqn:E2; [|simpl; lia].
+  pose proof (lookup_bk_kcost_dksize _ _ _ E2) as H2. destruct sec as [| | | | | | | sec]; try lia.
+  rewrite tsize_dict in H2. pose proof (lookup_bk_cost_le s1 sec) as C2. pose proof (kcost_le_dksize sec) as K2.
+  destruct (lookup_bk s1 sec) as [leaf|] eqn:E3; [|simpl; lia].
+  pose proof (lookup_bk_kcost_dksize _ _ _ E3) as H3. pose proof (vsize_le_tsize leaf).
   destruct leaf; simpl in *; lia.
 Qed.
 
